@@ -202,6 +202,24 @@ def _iter_src(t):
     return _iter_source(t)
 
 
+def ends_in_slash(c):
+    """(subject, truth) if the path condition says whether `subject` ends in '/': x.ends_with('/') on the text or on its bytes, or
+    x.as_bytes().last() == Some(&b'/') (either operand order, == or !=)"""
+    t = c.term
+    if not isinstance(c.fact[1], bool) or c.fact[0] != "eq":
+        return None
+    if is_call(t, "str>::ends_with", "[T]>::ends_with") and len(call_args(t)) == 2 and \
+            (const_char(call_args(t)[1]) == "/" or const_bytes(call_args(t)[1]) == "/" or const_str(call_args(t)[1]) == "/"):
+        return call_args(t)[0], c.fact[1]
+    iq = inequality_fact(c)
+    if iq is not None:
+        for a, b in ((iq[0], iq[1]), (iq[1], iq[0])):
+            av = agg_variant(b)
+            if is_call(a, "[T]>::last") and len(call_args(a)) == 1 and av and av[1] == "Some" and av[2] and const_int(deval(av[2][0])) == 47:
+                return call_args(a)[0], not iq[2]
+    return None
+
+
 def run(ctx):
     fx = ctx.fx
     sp = spec("plist.json")
@@ -368,9 +386,9 @@ def run(ctx):
             init = pushes[0].args[0][1][2] if pushes and len(pushes[0].args[0][1]) > 2 else None
             slash = None
             for c in p.conds():
-                if is_call(c.term, "str>::ends_with", "[T]>::ends_with") and (const_char(call_args(c.term)[1]) == "/" or const_bytes(call_args(c.term)[1]) == "/" or const_str(call_args(c.term)[1]) == "/") \
-                        and is_pfx(call_args(c.term)[0]) and isinstance(c.fact[1], bool):
-                    slash = c.fact[1]
+                es = ends_in_slash(c)
+                if es is not None and is_pfx(es[0]):
+                    slash = es[1]
             seq = ["prefix"] if init is not None and is_call(strip_refs(init), "::to_os_string", "::to_owned", "OsString::from", "::into") and is_pfx(init) else []
             for e in pushes:
                 a = e.args[1]
@@ -399,8 +417,9 @@ def run(ctx):
                 has_pfx = (c.fact == ("eq", 1))
         slash = None
         for c in p.conds():
-            if is_call(c.term, "str>::ends_with") and const_char(call_args(c.term)[1]) == "/":
-                slash = (c.fact == ("eq", True))
+            es = ends_in_slash(c)
+            if es is not None:
+                slash = es[1]
         seq = []
         for e in pushes:
             a = e.args[1]
@@ -418,8 +437,9 @@ def run(ctx):
         # the ends_with test is on the path built so far (the prefix), after the prefix push
         ok_on = False
         for c in p.conds():
-            if is_call(c.term, "str>::ends_with"):
-                ok_on = mentions(call_args(c.term)[0], lambda s: s[0] == "mutated" or is_call(s, "OsString::new"))
+            es = ends_in_slash(c)
+            if es is not None:
+                ok_on = mentions(es[0], lambda s: s[0] == "mutated" or is_call(s, "OsString::new"))
         ctx.check(ok_on, "D2-PREFIX", ck, "slash-test-%d" % i, "ends_with('/') is tested on the path built so far", "the '/' test is not made on the prefix that was just pushed", fn_span(body), nontrivial=False)
 
     # ---- D3 kind filters
